@@ -5,7 +5,9 @@
 
     * block types: stored (BTYPE=00; only for blocks of at most 65535 literals), fixed-Huffman
       (BTYPE=01) and dynamic-Huffman (BTYPE=10; canonical codes for code lengths given by the
-      caller, sent without repeat codes) with the length / distance base + extra-bit tables of
+      caller, sent without repeat codes — `Kind.dyn` — or as a caller-given sequence of
+      code-length symbols with the repeat codes 16/17/18 in a caller-given code-length code —
+      `Kind.dynRle`) with the length / distance base + extra-bit tables of
       §3.2.5; which type is used for a block is the caller's choice (`kind`);
     * a block with BFINAL=1 ends a deflate stream: what follows starts at the next byte boundary
       (RFC 7692 §7.2.3.4: such a block is followed by the `00` byte);
@@ -171,6 +173,133 @@ def dynHeader (ll dl : List Nat) : List Bool :=
 def dynBits (final : Bool) (ll dl : List Nat) (toks : List Token) : List Bool :=
   [final, false, true] ++ dynHeader ll dl ++ toks.flatMap (tokBitsG (canonCode ll) (canonCode dl)) ++ canonCode ll 256
 
+/-! ### dynamic-Huffman headers that use the repeat codes 16, 17, 18 (§3.2.7)
+
+  The `HLIT + 257 + HDIST + 1` code lengths are sent as ONE sequence of symbols of the code-length
+  alphabet: 0..15 = that length; 16 = copy the previous length 3..6 times (2 extra bits);
+  17 = 3..10 zeros (3 extra bits); 18 = 11..138 zeros (7 extra bits).  A run may cross from the
+  literal/length lengths into the distance lengths.  The code-length code itself (19 lengths 0..7,
+  complete) and HCLEN are the caller's choice. -/
+
+/-- one symbol of the code-length alphabet with its argument -/
+inductive Item
+  /-- one code length 0..15 -/
+  | lit (n : Nat)
+  /-- symbol 16: the previous length `k` = 3..6 more times -/
+  | rep16 (k : Nat)
+  /-- symbol 17: `k` = 3..10 zeros -/
+  | rep17 (k : Nat)
+  /-- symbol 18: `k` = 11..138 zeros -/
+  | rep18 (k : Nat)
+  deriving Repr, DecidableEq, Inhabited
+
+/-- the argument is in the range the symbol can express -/
+def Item.ok : Item → Bool
+  | .lit n => n ≤ 15
+  | .rep16 k => 3 ≤ k && k ≤ 6
+  | .rep17 k => 3 ≤ k && k ≤ 10
+  | .rep18 k => 11 ≤ k && k ≤ 138
+
+/-- the symbol 0..18 -/
+def Item.sym : Item → Nat
+  | .lit n => n
+  | .rep16 _ => 16
+  | .rep17 _ => 17
+  | .rep18 _ => 18
+
+/-- the code lengths a list of items stands for, after the lengths `acc`; `none` when symbol 16
+    comes first (there is no previous length) -/
+def expandGo : List Nat → List Item → Option (List Nat)
+  | acc, [] => some acc
+  | acc, .lit n :: r => expandGo (acc ++ [n]) r
+  | acc, .rep16 k :: r =>
+    match acc.getLast? with
+    | none => none
+    | some v => expandGo (acc ++ List.replicate k v) r
+  | acc, .rep17 k :: r => expandGo (acc ++ List.replicate k 0) r
+  | acc, .rep18 k :: r => expandGo (acc ++ List.replicate k 0) r
+
+/-- **the code lengths a list of items stands for** -/
+def expand (items : List Item) : Option (List Nat) := expandGo [] items
+
+/-- an item in the code-length code `cc`: the code word, then the extra bits -/
+def itemBits (cc : Nat → List Bool) : Item → List Bool
+  | .lit n => cc n
+  | .rep16 k => cc 16 ++ bitsLE 2 (k - 3)
+  | .rep17 k => cc 17 ++ bitsLE 3 (k - 3)
+  | .rep18 k => cc 18 ++ bitsLE 7 (k - 11)
+
+/-- how many of the first entries equal `v` -/
+def runLen (v : Nat) : List Nat → Nat
+  | [] => 0
+  | x :: r => if x = v then runLen v r + 1 else 0
+
+/-- `n` zeros, greedily: 138 at a time with symbol 18 while at least 11 are left, then symbol 17
+    for 3..10, else single zeros (the first argument is fuel, `≥ n`) -/
+def zeroRun : Nat → Nat → List Item
+  | 0, _ => []
+  | fuel + 1, n =>
+    if n = 0 then []
+    else if n < 3 then .lit 0 :: zeroRun fuel (n - 1)
+    else if n ≤ 10 then [.rep17 n]
+    else if n ≤ 138 then [.rep18 n]
+    else .rep18 138 :: zeroRun fuel (n - 138)
+
+/-- `n` more copies of the previous length `v`, greedily: 6 at a time with symbol 16 while at
+    least 3 are left, else single lengths (the first argument is fuel, `≥ n`) -/
+def sameRun : Nat → Nat → Nat → List Item
+  | 0, _, _ => []
+  | fuel + 1, v, n =>
+    if n = 0 then []
+    else if n < 3 then .lit v :: sameRun fuel v (n - 1)
+    else if n ≤ 6 then [.rep16 n]
+    else .rep16 6 :: sameRun fuel v (n - 6)
+
+def rleGo : Nat → List Nat → List Item
+  | 0, _ => []
+  | _ + 1, [] => []
+  | fuel + 1, v :: r =>
+    let n := runLen v r
+    (if v = 0 then zeroRun (n + 1) (n + 1) else .lit v :: sameRun n v n) ++ rleGo fuel (r.drop n)
+
+/-- **a simple run-length compressor** for code lengths: `expand (rle l) = some l`
+    (Proofs/InflateRle.lean) -/
+def rle (l : List Nat) : List Item := rleGo l.length l
+
+/-- a complete code-length code in which every symbol 0..18 has a code word: 4 bits for 0..12,
+    5 bits for 13..18 -/
+def clDefault : List Nat := [4, 4, 4, 4, 4, 4, 4, 4, 4, 4, 4, 4, 4, 5, 5, 5, 5, 5, 5]
+
+/-- `cll` = 19 lengths 0..7 of a complete code-length code; `nc` = 4..19 of them are sent
+    (HCLEN + 4), those not sent (in the order of `clOrder`) are 0 -/
+def clOk (cll : List Nat) (nc : Nat) : Bool :=
+  cll.length == 19 && cll.all (· ≤ 7) && kraft cll == 2 ^ 15 && 4 ≤ nc && nc ≤ 19 &&
+  (clOrder.drop nc).all (fun s => cll.getD s 0 == 0)
+
+/-- a dynamic block whose `nl + nd` code lengths are sent as `items` in the code-length code
+    `cll` can be written: the code-length code is fine, every item is in range and its symbol has
+    a code word, and the items expand to `nl` literal/length lengths followed by distance lengths
+    that are `dynOk` for the tokens -/
+def rleOk (cll : List Nat) (nc nl : Nat) (items : List Item) (toks : List Token) : Bool :=
+  clOk cll nc && items.all (fun it => it.ok && 1 ≤ cll.getD it.sym 0) &&
+  match expand items with
+  | none => false
+  | some lens => dynOk (lens.take nl) (lens.drop nl) toks
+
+/-- header of a dynamic block after the 3 block-header bits: HLIT, HDIST, HCLEN = `nc` − 4, the
+    first `nc` lengths of the code-length code `cll` in the order of `clOrder`, then the items in
+    the canonical code of `cll` -/
+def dynHeaderR (cll : List Nat) (nc nl nd : Nat) (items : List Item) : List Bool :=
+  bitsLE 5 (nl - 257) ++ bitsLE 5 (nd - 1) ++ bitsLE 4 (nc - 4) ++
+    (clOrder.take nc).flatMap (fun s => bitsLE 3 (cll.getD s 0)) ++ items.flatMap (itemBits (canonCode cll))
+
+/-- dynamic-Huffman block with a run-length coded header: the code lengths are `lens`
+    (= what `items` expand to), the first `nl` of them for the literal/length code -/
+def dynBitsR (final : Bool) (cll : List Nat) (nc nl : Nat) (items : List Item) (lens : List Nat)
+    (toks : List Token) : List Bool :=
+  [final, false, true] ++ dynHeaderR cll nc nl (lens.length - nl) items ++
+    toks.flatMap (tokBitsG (canonCode (lens.take nl)) (canonCode (lens.drop nl))) ++ canonCode (lens.take nl) 256
+
 /-- how a block is to be written -/
 inductive Kind
   /-- stored, if the block has at most 65535 literals and no match (else fixed) -/
@@ -178,7 +307,14 @@ inductive Kind
   | fixed
   /-- dynamic with these literal/length and distance code lengths, if `dynOk` (else fixed) -/
   | dyn (litLens distLens : List Nat)
+  /-- dynamic with a header that uses the repeat codes: code-length code `cll` of which `nc`
+      lengths are sent, `nl` literal/length lengths, all code lengths given as `items`;
+      if `rleOk` (else fixed) -/
+  | dynRle (cll : List Nat) (nc nl : Nat) (items : List Item)
   deriving Repr, DecidableEq, Inhabited
+
+/-- the run-length coded form of `.dyn ll dl`: items from `rle`, the code-length code `clDefault` -/
+def Kind.rleOf (ll dl : List Nat) : Kind := .dynRle clDefault 19 ll.length (rle (ll ++ dl))
 
 /-- the bits of a block without the padding that follows a BFINAL=1 block -/
 def bodyBits (off : Nat) (k : Kind) (b : Blk) : List Bool :=
@@ -186,6 +322,9 @@ def bodyBits (off : Nat) (k : Kind) (b : Blk) : List Bool :=
   | .stored => if canStore b then storedBits off b.final (b.toks.map litVal) else fixedBits b.final b.toks
   | .fixed => fixedBits b.final b.toks
   | .dyn ll dl => if dynOk ll dl b.toks then dynBits b.final ll dl b.toks else fixedBits b.final b.toks
+  | .dynRle cll nc nl items =>
+    if rleOk cll nc nl items b.toks then dynBitsR b.final cll nc nl items ((expand items).getD []) b.toks
+    else fixedBits b.final b.toks
 
 /-- one block at bit offset `off`.  After a BFINAL=1 block the stream ends: zero bits up to the
     byte boundary. -/
